@@ -30,6 +30,11 @@ check:clauses as reported by the quick tier; "missed before" names a check that 
 Totals: %d changes kept, all caught by the check of the property they were written against in the quick tier;
 %d of them only after the check was strengthened (recorded in the last column and in §0.5).
 """ % (len(rows), sum(1 for d in glob.glob(os.path.join(root, "seeded", "*")) if json.load(open(os.path.join(d, "meta.json"))).get("missed_before_strengthening")))
+rj = os.path.join(root, "seeded_rejected", "README.json")
+if os.path.exists(rj):
+    sec += "\n**Candidates not kept** (`seeded_rejected/`): a sub-agent's change is kept only if I can confirm that it violates the property as stated.\n\n"
+    for x in json.load(open(rj))["not_kept"]:
+        sec += "* `%s` (written against %s): %s. *%s*\n" % (x["id"], x["written_against"], x["change"], x["why_not_kept"])
 p = os.path.join(root, "DESIGN.md")
 s = open(p).read()
 if "## 12. Seeded changes" in s:
